@@ -132,7 +132,7 @@ def run_failure_world(kind, seed, quick):
             for inv in keep:
                 exp = C.expected_command_id(inv)
                 for yes in (False, True):
-                    argv = inv.argv + ['--json'] + (['--yes'] if yes else []) + (['--dry-run'] if inv.dry else [])
+                    argv = list(getattr(w, 'extra_global', [])) + inv.argv + ['--json'] + (['--yes'] if yes else []) + (['--dry-run'] if inv.dry else [])
                     rc, doc, out, err = C.world_cli(w, argv, stdin=inv.stdin)
                     if C.is_usage_error(rc, out, err):
                         o.usage += 1; break
